@@ -58,7 +58,7 @@ func WriteBasicTypeListLE[T constraints.Unsigned, K BasicType](buf *bytes.Buffer
 		return err
 	}
 	for _, s := range values {
-		if err := WriteBasicType(buf, s); err != nil {
+		if err := WriteBasicTypeLE(buf, s); err != nil {
 			return err
 		}
 	}
@@ -95,7 +95,7 @@ func ReadBasicTypeListLE[T constraints.Unsigned, K BasicType](buf *bytes.Buffer)
 	result := make([]K, 0, count)
 	var err error
 	for i := 0; i < count; i++ {
-		v, e := ReadBasicType[K](buf)
+		v, e := ReadBasicTypeLE[K](buf)
 		if e != nil {
 			return nil, e
 		}
